@@ -546,3 +546,16 @@ pub proof fn lemma_mod_chain3(a0: int, x1: int, x2: int, x3: int, a1: int, a2: i
 pub proof fn lemma_sum_pair(a: u8, b: u8)
     ensures sum(seq![a, b]) == a as int + b as int
 { reveal_with_fuel(sum, 3); }
+
+/// delete old length, append new length, add entry sum, delete old count, append new count
+pub proof fn lemma_mod_chain5b(a0: int, x1: int, x2: int, x3: int, x4: int, x5: int, a1: int, a2: int, a3: int, a4: int, a5: int)
+    requires a1 == (a0 - x1) % 256, a2 == (a1 + x2) % 256, a3 == (a2 + x3) % 256, a4 == (a3 - x4) % 256, a5 == (a4 + x5) % 256
+    ensures (a5 - (a0 - x1 + x2 + x3 - x4 + x5)) % 256 == 0
+{
+    let d1 = a1 - (a0 - x1); let d2 = a2 - (a1 + x2); let d3 = a3 - (a2 + x3); let d4 = a4 - (a3 - x4); let d5 = a5 - (a4 + x5);
+    assert(d1 % 256 == 0 && d2 % 256 == 0 && d3 % 256 == 0 && d4 % 256 == 0 && d5 % 256 == 0);
+    assert(a5 - (a0 - x1 + x2 + x3 - x4 + x5) == d1 + d2 + d3 + d4 + d5);
+    assert((d1 + d2) % 256 == 0);
+    assert((d1 + d2 + d3) % 256 == 0);
+    assert((d1 + d2 + d3 + d4) % 256 == 0);
+}
